@@ -8,7 +8,7 @@ exec python3 - <<'PY'
 import sys, os
 sys.path.insert(0, os.getcwd())
 import vlib
-need = ['unit', 'sim.test']
+need = ['unit', 'sim.test', 'sim_race.test']
 info = vlib.prepare(need_go=tuple(need))
 print({k: info.get(k) for k in ('coq_ok', 'go_ok', 'coq_s', 'prepare_s', 'failed_vo', 'paramscan')})
 if not info['coq_ok']:
